@@ -378,4 +378,110 @@ theorem CurveEquiv.rotate (a b : Pt) (l1 l2 : List Pt) :
   simp only [endC, e1, e2, List.getLast?_concat]
   simp
 
+/-! ### normal form of `locateParts` -/
+
+def inAnyPoly (as : List Poly) (p : Pt) : Bool :=
+  as.any (fun q => !(onAnySeg p (q.rings.flatMap segs)) && insidePolyE (EPt.ofPt p) q)
+
+def onAnyRing (as : List Poly) (p : Pt) : Bool :=
+  as.any (fun q => onAnySeg p (q.rings.flatMap segs)) || as.any (fun q => q.rings.any (fun r => r == [p]))
+
+def onAnyCurve (cs : List (List Pt)) (p : Pt) : Bool := cs.any (fun c => onAnySeg p (segs c))
+
+theorem areaSegs_eq (ps : Parts) : ps.areaSegs = ps.areas.flatMap (fun q => q.rings.flatMap segs) := by
+  unfold Parts.areaSegs; rw [List.flatMap_assoc]
+
+theorem onAnySeg_areaSegs (ps : Parts) (p : Pt) :
+    onAnySeg p ps.areaSegs = ps.areas.any (fun q => onAnySeg p (q.rings.flatMap segs)) := by
+  rw [areaSegs_eq, onAnySeg_flatMap]
+
+theorem onAnySeg_curveSegs (ps : Parts) (p : Pt) : onAnySeg p ps.curveSegs = onAnyCurve ps.curves p := by
+  unfold Parts.curveSegs onAnyCurve; rw [onAnySeg_flatMap]
+
+theorem locateParts_eq (ps : Parts) (p : Pt) : locateParts ps p =
+    if inAnyPoly ps.areas p then .inside
+    else if onAnyRing ps.areas p then .onBoundary
+    else if onAnyCurve ps.curves p then (if esum p ps.curves % 2 == 1 then .onBoundary else .inside)
+    else if ps.pts.any (· == p) then .inside
+    else .outside := by
+  unfold locateParts
+  rw [onAnySeg_areaSegs, onAnySeg_curveSegs, endpointCount_eq_esum]
+  rfl
+
+theorem locateFace_eq (ps : Parts) (e : EPt) :
+    locateFace ps e = if ps.areas.any (insidePolyE e) then .inside else .outside := rfl
+
+/-! ### congruence of point location -/
+
+theorem esum_forall₂ (p : Pt) {cs cs' : List (List Pt)} (h : List.Forall₂ CurveEquiv cs cs') :
+    esum p cs = esum p cs' := by
+  induction h with
+  | nil => rfl
+  | cons hab _ ih => simp only [esum, hab.ends p, ih]
+
+/-- **Point location depends only on the point sets written**: members may be re-written
+(`CurveEquiv`: direction, start vertex of a closed curve; `PolyEquiv`: ring start vertex, ring
+direction, order of holes) and isolated points listed in any order / multiplicity. -/
+theorem locateParts_congr {pts pts' : List Pt} {cs cs' : List (List Pt)} {as as' : List Poly} (p : Pt)
+    (hp : ∀ x, x ∈ pts ↔ x ∈ pts') (hc : List.Forall₂ CurveEquiv cs cs')
+    (ha : List.Forall₂ PolyEquiv as as') :
+    locateParts ⟨pts, cs, as⟩ p = locateParts ⟨pts', cs', as'⟩ p := by
+  rw [locateParts_eq, locateParts_eq]
+  have e1 : inAnyPoly as p = inAnyPoly as' p :=
+    any_forall₂ ha (fun a b hab => by rw [hab.seg p, hab.inside])
+  have e2 : onAnyRing as p = onAnyRing as' p := by
+    unfold onAnyRing
+    rw [any_forall₂ ha (fun a b hab => hab.seg p), any_forall₂ ha (fun a b hab => hab.single p)]
+  have e3 : onAnyCurve cs p = onAnyCurve cs' p := any_forall₂ hc (fun a b hab => hab.seg p)
+  have e4 : esum p cs = esum p cs' := esum_forall₂ p hc
+  have e5 : pts.any (· == p) = pts'.any (· == p) := by
+    rw [Bool.eq_iff_iff, List.any_eq_true, List.any_eq_true]
+    constructor <;> rintro ⟨x, hx, hf⟩
+    · exact ⟨x, (hp x).mp hx, hf⟩
+    · exact ⟨x, (hp x).mpr hx, hf⟩
+  simp only [e1, e2, e3, e4, e5]
+
+theorem locateFace_congr {pts pts' : List Pt} {cs cs' : List (List Pt)} {as as' : List Poly} (e : EPt)
+    (ha : List.Forall₂ PolyEquiv as as') :
+    locateFace ⟨pts, cs, as⟩ e = locateFace ⟨pts', cs', as'⟩ e := by
+  rw [locateFace_eq, locateFace_eq]
+  simp only [any_forall₂ ha (fun a b hab => hab.inside e)]
+
+/-- Members / holes / points listed in another order. -/
+theorem locateParts_perm {pts pts' : List Pt} {cs cs' : List (List Pt)} {as as' : List Poly} (p : Pt)
+    (hp : pts.Perm pts') (hc : cs.Perm cs') (ha : as.Perm as') :
+    locateParts ⟨pts, cs, as⟩ p = locateParts ⟨pts', cs', as'⟩ p := by
+  rw [locateParts_eq, locateParts_eq]
+  have e1 : inAnyPoly as p = inAnyPoly as' p := any_perm ha _
+  have e2 : onAnyRing as p = onAnyRing as' p := by
+    unfold onAnyRing; rw [any_perm ha, any_perm ha]
+  have e3 : onAnyCurve cs p = onAnyCurve cs' p := any_perm hc _
+  have e4 : esum p cs = esum p cs' := esum_perm p hc
+  have e5 : pts.any (· == p) = pts'.any (· == p) := any_perm hp _
+  simp only [e1, e2, e3, e4, e5]
+
+theorem locateFace_perm {pts pts' : List Pt} {cs cs' : List (List Pt)} {as as' : List Poly} (e : EPt)
+    (ha : as.Perm as') :
+    locateFace ⟨pts, cs, as⟩ e = locateFace ⟨pts', cs', as'⟩ e := by
+  rw [locateFace_eq, locateFace_eq]
+  simp only [any_perm ha]
+
+theorem forall₂_refl_of {α : Type} {R : α → α → Prop} (h : ∀ a, R a a) (l : List α) : List.Forall₂ R l l := by
+  induction l with
+  | nil => exact List.Forall₂.nil
+  | cons a t ih => exact List.Forall₂.cons (h a) ih
+
+/-- one member polygon re-written, anywhere in the list -/
+theorem forall₂_poly_at {q q' : Poly} (h : PolyEquiv q q') (pre post : List Poly) :
+    List.Forall₂ PolyEquiv (pre ++ q :: post) (pre ++ q' :: post) := by
+  induction pre with
+  | nil => exact List.Forall₂.cons h (forall₂_refl_of PolyEquiv.refl post)
+  | cons a t ih => exact List.Forall₂.cons (PolyEquiv.refl a) ih
+
+theorem forall₂_curve_at {c c' : List Pt} (h : CurveEquiv c c') (pre post : List (List Pt)) :
+    List.Forall₂ CurveEquiv (pre ++ c :: post) (pre ++ c' :: post) := by
+  induction pre with
+  | nil => exact List.Forall₂.cons h (forall₂_refl_of CurveEquiv.refl post)
+  | cons a t ih => exact List.Forall₂.cons (CurveEquiv.refl a) ih
+
 end Geo.Proofs.Spec
